@@ -220,3 +220,122 @@ Section JacobiLaws.
     rewrite Z.rem_mod_nonneg in Ho by lia. lia.
   Qed.
 End JacobiLaws.
+
+(* ------------------------------------------------------------------ Kronecker symbol in terms of the Jacobi symbol *)
+Definition kron_u (a n : Z) : Z := if (n <? 0) && (a <? 0) then -1 else 1.
+Definition kron_2 (a : Z) : Z :=
+  if a mod 2 =? 0 then 0 else if (a mod 8 =? 1) || (a mod 8 =? 7) then 1 else -1.
+
+Lemma rem2_zero_iff : forall a, (Z.rem a 2 =? 0) = (a mod 2 =? 0).
+Proof.
+  intros a. assert (H := Z.quot_rem' a 2). assert (Hb := Z.rem_bound_abs a 2 ltac:(lia)).
+  destruct (Z.rem a 2 =? 0) eqn:E; destruct (a mod 2 =? 0) eqn:E2; try reflexivity; lia.
+Qed.
+
+Section KroneckerLaws.
+  Variable J : Z -> Z -> Z.
+  Hypothesis J_periodic : forall a n, oddpos n -> J a n = J (a mod n) n.
+  Hypothesis J_one : forall n, oddpos n -> J 1 n = 1.
+  Hypothesis J_mul : forall a b n, oddpos n -> J (a * b) n = J a n * J b n.
+  Hypothesis J_two : forall n, oddpos n -> J 2 n = if (n mod 8 =? 3) || (n mod 8 =? 5) then -1 else 1.
+  Hypothesis J_reciprocity : forall a n, oddpos a -> oddpos n -> Z.gcd a n = 1 ->
+    J a n = (if (a mod 4 =? 3) && (n mod 4 =? 3) then -1 else 1) * J n a.
+  Hypothesis J_not_coprime : forall a n, oddpos n -> Z.gcd a n <> 1 -> J a n = 0.
+
+  (* (a|n) = (a|u) (a|2)^j (a|m) for n = u 2^j m, m odd positive; (a|0) = 1 for a = +-1, else 0 *)
+  Theorem kronecker_spec_relative : forall a n, n <> 0 ->
+    exists j m, 0 <= j /\ Z.abs n = m * 2 ^ j /\ oddpos m /\
+      mp_kronecker a n = Ok (kron_u a n * kron_2 a ^ j * J a m).
+  Proof.
+    intros a n Hn. unfold mp_kronecker. destruct (n =? 0) eqn:E0; [lia|].
+    destruct (strip_twos_spec (Z.abs n) ltac:(lia)) as (k & Hk & He & Ho & Hr & Hp).
+    set (m := fst (strip_twos (Z.abs n))) in *.
+    exists k, m. split; auto. split; auto. assert (Hm : oddpos m) by (split; lia). split; auto.
+    rewrite bfmod_spec by lia. cbn [bind].
+    assert (Hj := jacobi_spec_relative J J_periodic J_one J_mul J_two J_reciprocity J_not_coprime a m ltac:(lia)).
+    unfold mp_jacobi in Hj. destruct (m <? 0) eqn:Em; [lia|].
+    assert (Hm2 : Z.rem m 2 <> 0) by (rewrite Z.rem_mod_nonneg by lia; lia).
+    destruct (Z.rem m 2 =? 0) eqn:Em2; [lia|]. rewrite (Hj Hm2). cbn [bind].
+    fold (kron_u a n). rewrite !rem2_zero_iff.
+    (* n even iff k >= 1 *)
+    assert (Hpar : (n mod 2 =? 0) = negb (k =? 0)).
+    { destruct (k =? 0) eqn:Ek; cbn [negb].
+      - assert (k = 0) by lia. subst k. rewrite Z.pow_0_r in He. lia.
+      - assert (Hk1 : 2 ^ k = 2 * 2 ^ (k - 1)) by (rewrite <- Z.pow_succ_r by lia; f_equal; lia). lia. }
+    rewrite Hpar. unfold kron_2.
+    destruct (k =? 0) eqn:Ek; cbn [negb].
+    - assert (k = 0) by lia. subst k. rewrite Z.pow_0_r. f_equal. ring.
+    - f_equal. destruct (a mod 2 =? 0) eqn:Ea; cbn [negb].
+      + rewrite Z.pow_0_l by lia. ring.
+      + destruct ((a mod 8 =? 1) || (a mod 8 =? 7)) eqn:E8.
+        * rewrite Z.pow_1_l by lia. cbn. ring.
+        * rewrite m1_pow by lia. rewrite Hp. change (-1 =? -1) with true. cbn [andb].
+          destruct (Z.odd k); ring.
+  Qed.
+
+  Theorem kronecker_zero : forall a, mp_kronecker a 0 = Ok (if (a =? 1) || (a =? -1) then 1 else 0).
+  Proof. reflexivity. Qed.
+End KroneckerLaws.
+
+(* ------------------------------------------------------------------ exhaustive comparison with the definition *)
+Definition zrange (lo : Z) (len : nat) : list Z := map (fun k => lo + Z.of_nat k) (seq 0 len).
+Lemma In_zrange : forall lo len x, lo <= x < lo + Z.of_nat len -> In x (zrange lo len).
+Proof.
+  intros lo len x H. unfold zrange. apply in_map_iff. exists (Z.to_nat (x - lo)). split; [lia|].
+  apply in_seq. lia.
+Qed.
+
+(* Legendre symbol (a/p), p an odd prime, by listing the squares modulo p *)
+Definition legendre_def (a p : Z) : Z :=
+  if a mod p =? 0 then 0
+  else if existsb (fun x => (x * x) mod p =? a mod p) (zrange 1 (Z.to_nat (p - 1))) then 1 else -1.
+(* Jacobi symbol: factor n by trial division (d = 3, 5, 7, ...), multiply the Legendre symbols *)
+Fixpoint jacobi_def_aux (fuel : nat) (a n d : Z) : Z :=
+  match fuel with
+  | O => 1
+  | S f => if n <=? 1 then 1
+           else if n mod d =? 0 then legendre_def a d * jacobi_def_aux f a (n / d) d
+           else jacobi_def_aux f a n (d + 2)
+  end.
+Definition jacobi_def (a n : Z) : Z := jacobi_def_aux (Z.to_nat (2 * n)) a n 3.
+Definition kronecker_def (a n : Z) : Z :=
+  if n =? 0 then (if Z.abs a =? 1 then 1 else 0)
+  else
+    let j := Z.log2 (Z.gcd (Z.abs n) (2 ^ Z.log2 (Z.abs n))) in
+    kron_u a n * kron_2 a ^ j * jacobi_def a (Z.abs n / 2 ^ j).
+
+Definition jacobi_sweep_ok : bool :=
+  forallb (fun n => if n mod 2 =? 1 then
+     forallb (fun a => match mp_jacobi a n with Ok r => r =? jacobi_def a n | _ => false end) (zrange (-100) 301)
+     else true) (zrange 1 99).
+Definition kronecker_sweep_ok : bool :=
+  forallb (fun n =>
+     forallb (fun a => match mp_kronecker a n with Ok r => r =? kronecker_def a n | _ => false end) (zrange (-40) 81))
+     (zrange (-64) 129).
+
+Lemma jacobi_sweep : jacobi_sweep_ok = true.
+Proof. vm_compute. reflexivity. Qed.
+Lemma kronecker_sweep : kronecker_sweep_ok = true.
+Proof. vm_compute. reflexivity. Qed.
+
+(* on 0 < n < 100 odd and -100 <= a <= 200 mp_jacobi is the Jacobi symbol of the definition *)
+Theorem jacobi_definition_small : forall n a, 0 < n < 100 -> n mod 2 = 1 -> -100 <= a <= 200 ->
+  mp_jacobi a n = Ok (jacobi_def a n).
+Proof.
+  intros n a Hn Ho Ha. assert (H := jacobi_sweep). unfold jacobi_sweep_ok in H.
+  rewrite forallb_forall in H. specialize (H n (In_zrange 1 99 n ltac:(lia))).
+  cbv beta in H. replace (n mod 2 =? 1) with true in H by lia.
+  rewrite forallb_forall in H. specialize (H a (In_zrange (-100) 301 a ltac:(lia))).
+  cbv beta in H. destruct (mp_jacobi a n); try discriminate. f_equal. lia.
+Qed.
+
+(* on -64 <= n <= 64 and -40 <= a <= 40 mp_kronecker is the Kronecker symbol of the definition (including n = 0) *)
+Theorem kronecker_definition_small : forall n a, -64 <= n <= 64 -> -40 <= a <= 40 ->
+  mp_kronecker a n = Ok (kronecker_def a n).
+Proof.
+  intros n a Hn Ha. assert (H := kronecker_sweep). unfold kronecker_sweep_ok in H.
+  rewrite forallb_forall in H. specialize (H n (In_zrange (-64) 129 n ltac:(lia))).
+  cbv beta in H.
+  rewrite forallb_forall in H. specialize (H a (In_zrange (-40) 81 a ltac:(lia))).
+  cbv beta in H. destruct (mp_kronecker a n); try discriminate. f_equal. lia.
+Qed.
